@@ -18,7 +18,7 @@ import sys
 import types
 
 from . import shims, rex
-from .core import ZXError, SInt, SBool, is_sym, active, cur
+from .core import ZXError, SInt, SBool, is_sym, active, cur, s_and
 from .seq import SStr, SBytes, _slice_bounds, _dec, _conj, _eq, to_els, mkstr, mkbytes
 
 PKG = 'ssh_audit'
@@ -324,6 +324,13 @@ def _dec_eq(a, b):
 
 def zx_in(item, cont):
     tc = type(cont)
+    if tc is range and type(item) is SInt:
+        # membership in a range is arithmetic, not a walk over its elements
+        if cont.step > 0:
+            r = s_and(item >= cont.start, item < cont.stop)
+            return bool(r if cont.step == 1 else s_and(r, (item - cont.start) % cont.step == 0))
+        r = s_and(item <= cont.start, item > cont.stop)
+        return bool(r if cont.step == -1 else s_and(r, (cont.start - item) % (-cont.step) == 0))
     if _symkey(item) or (tc in (dict, set) and _tainted(cont)):
         if tc in (dict, set, frozenset) or isinstance(cont, (type({}.keys()), type({}.values()))):
             for kk in cont:
